@@ -958,9 +958,12 @@ def c09g(chk):
                     dd = f.single_def(f.copy_root(subj)) if subj is not None else None
                     if dd and dd[0] == "assign" and dd[3]["k"] == "unop" and dd[3]["op"] == "Not":
                         t_false = st["otherwise"]
-                    route = nb not in f.reachable_from(t_false) and an.dominated_by_edge(f, it.switch_bb, it.none_t, nb)
+                    # (a miss reported as a value by an inlined helper - `return Some(sample)`, matched by the caller as
+                    # `Some(unknown) => Err(..)`: the caller's None edge is not a path from the miss)
+                    after_miss = an.reachable_with_edges_removed(f, t_false, set(), an.infeasible_edges_from(f, t_false, None))
+                    route = nb not in after_miss and an.dominated_by_edge(f, it.switch_bb, it.none_t, nb)
                     # a miss must not continue the loop
-                    route = route and it.bb not in f.reachable_from(t_false)
+                    route = route and it.bb not in after_miss
                     how = "for s in samples { if !set.contains(s) { return Err } }"
             ok = over_listed and elem_tested and set_ok and route
             why = "%s: over sample_map.samples()=%s, tests the element=%s, against the set of the input's samples=%s, a miss never reaches Reader::new_unchecked (%s)=%s" % (it.describe(), over_listed, elem_tested, set_ok, how, route)
